@@ -41,11 +41,13 @@ pub struct Ev {
     pub violations: Vec<Violation>,
     pub nviol: u64,
     pub notes: BTreeMap<String, J>,
+    /// distinct non-trivial cases counted by the check itself (e.g. per-FST distinct probes), added to fps.len()
+    pub distinct_extra: u64,
 }
 
 impl Ev {
     pub fn new() -> Ev {
-        Ev { evaluations: 0, fps: HashSet::new(), counters: BTreeMap::new(), samples: vec![], violations: vec![], nviol: 0, notes: BTreeMap::new() }
+        Ev { evaluations: 0, fps: HashSet::new(), counters: BTreeMap::new(), samples: vec![], violations: vec![], nviol: 0, notes: BTreeMap::new(), distinct_extra: 0 }
     }
     /// one oracle evaluation; `fp` = fingerprint if the case is non-trivial by the check's rule
     pub fn eval(&mut self, fp: Option<u64>) {
@@ -116,6 +118,7 @@ impl Ev {
             }
         }
         self.nviol += o.nviol;
+        self.distinct_extra += o.distinct_extra;
         for v in o.violations {
             if self.violations.len() < 16 {
                 self.violations.push(v);
@@ -289,7 +292,7 @@ pub fn finish(ctx: &Ctx, ev: Ev, spec: Spec) -> i32 {
     let wall = ctx.start.elapsed().as_secs_f64();
     let mut cov: Vec<(String, J)> = vec![
         ("evaluations".into(), J::U(ev.evaluations.max(0))),
-        ("distinct_nontrivial".into(), J::U(ev.fps.len() as u64)),
+        ("distinct_nontrivial".into(), J::U(ev.fps.len() as u64 + ev.distinct_extra)),
         ("rule".into(), J::s(spec.rule)),
         ("samples".into(), J::A(ev.samples.clone())),
     ];
@@ -332,7 +335,7 @@ pub fn finish(ctx: &Ctx, ev: Ev, spec: Spec) -> i32 {
         ctx.tier.name(),
         ctx.seed,
         ev.evaluations,
-        ev.fps.len(),
+        ev.fps.len() as u64 + ev.distinct_extra,
         ev.nviol,
         wall
     );
